@@ -605,6 +605,7 @@ def run(run):
         same = o[0] == "ok" and o[1].structurally_equal(t) and o[1].has_unique_ids() and str(o[1]) == str(t)
         if not same:
             violations.append({"kind": "CLI JSON tree is not read back as the same tree", "json": js,
+                               "cli_tree": repr(st),
                                "outcome": o[1] if o[0] == "raise" else str(o[1])})
     ok_def = ("fun c : tree * json * res tree => let '(t, j, r) := c in "
               "zlist_eqb (f_json (cli_to_json t)) (f_json j) && "
@@ -686,14 +687,15 @@ def replay(path):
         print("pickle outcome:", r)
         return 0 if (r[0] == "ok" and r[2]) else 1
     if "json" in w:
-        def as_lists(t):
-            return [t.value, None if t.children is None else [as_lists(c) for c in t.children]]
+        import ast
+        t = build(ast.literal_eval(w["cli_tree"]))
+        js = cli.derivation_tree_to_json(t)
         try:
-            back = cli.get_input_string("check", io.StringIO(), Namespace(input_string=w["json"]), {}, GRAMMAR,
+            back = cli.get_input_string("check", io.StringIO(), Namespace(input_string=js), {}, GRAMMAR,
                                         "true").unwrap()
         except Exception as e:
             print("reading the JSON tree raised", type(e).__name__); return 1
-        same = as_lists(back) == json.loads(w["json"])
-        print("tree read back:", as_lists(back), "same as the JSON value:", same)
+        same = back.structurally_equal(t) and str(back) == str(t) and back.has_unique_ids()
+        print("json written:", js, "| read back as the same tree:", same)
         return 0 if same else 1
     return 1
